@@ -2119,8 +2119,12 @@ class NLProblemBuilder {
     if (int n = h.num_common_exprs())
       builder_.AddCommonExprs(n);
     int n_objs = resulting_nobj( h.num_objs );
-    if (n_objs != 0)
+    if (n_objs != 0) {
       builder_.AddObjs( n_objs );
+      // The objective(s) exist from here on, even if the file gives
+      // no 'O' segment for them (objno_used(), SetObjNames rely on this).
+      notify_obj_added();
+    }
     if (h.num_algebraic_cons != 0)
       builder_.AddAlgebraicCons(h.num_algebraic_cons);
     if (h.num_logical_cons != 0)
